@@ -251,6 +251,21 @@ func localise(spec gens.JPExpr, data any) (coords, position string) {
 	return "?", "?"
 }
 
+// descAfterMulti reports the kind of a multi-selecting fragment that directly
+// precedes a descent ("" when there is none): Get is known to descend into only
+// one of the selected nodes then, and which one depends on map order.
+func descAfterMulti(spec gens.JPExpr) string {
+	for i := 2; i < len(spec); i++ {
+		if spec[i].K == "desc" {
+			switch spec[i-1].K {
+			case "wild", "union", "slice", "filter", "desc":
+				return spec[i-1].K
+			}
+		}
+	}
+	return ""
+}
+
 func judge(c *core.Ctx, spec gens.JPExpr, data any, raw func() any) {
 	x := spec.Build()
 	got, pv, site := safeGet(x, data)
@@ -265,6 +280,10 @@ func judge(c *core.Ctx, spec gens.JPExpr, data any, raw func() any) {
 	// determinism: a second evaluation gives the same multiset
 	again, _, _ := safeGet(x, data)
 	if !sameMulti(gl, canonList(again)) {
+		if prev := descAfterMulti(spec); prev != "" {
+			c.Fail(core.Sig("Get", "desc-after-multi", "prev="+prev, "nondeterministic"), mk(), size, strings.Join(gl, " "), strings.Join(canonList(again), " "))
+			return
+		}
 		c.Fail(core.Sig("Get", "nondeterministic", "frag="+spec[len(spec)-1].K), mk(), size, strings.Join(gl, " "), strings.Join(canonList(again), " "))
 		return
 	}
@@ -281,6 +300,10 @@ func judge(c *core.Ctx, spec gens.JPExpr, data any, raw func() any) {
 		c.Nontrivial()
 	}
 	if !ok {
+		if prev := descAfterMulti(spec); prev != "" {
+			c.Fail(core.Sig("Get", "desc-after-multi", "prev="+prev, kind), mk(), size, strings.Join(exp, " "), strings.Join(gl, " "))
+			return
+		}
 		coords, pos := localise(spec, data)
 		c.Fail(core.Sig("Get", coords, "pos="+pos, kind), mk(), size, strings.Join(exp, " "), strings.Join(gl, " "))
 		return
